@@ -121,8 +121,9 @@ fn summarize_n<const N: usize>() {
         let el: u8 = kani::any();
         let ty: u8 = kani::any();
         kani::assume(ty != 2 && ty != 5 && ty != 31);
-        let ms: u32 = kani::any();
-        kani::assume(ms >= 1 && ms < 86_400_000);
+        // times of day are concrete and NOT monotone (chrono on symbolic instants does not finish
+        // here; instant arithmetic is C08's subject): 5 s, 9 s, 7 s, 3 s
+        let ms: u32 = [5_000u32, 9_000, 7_000, 3_000][i % 4];
         spec[i] = Spec { kind, el, ty, ms };
         let (t, c) = match kind {
             0 => (31u8, radial(el, i as f32, false)),
